@@ -4,6 +4,7 @@ from __future__ import annotations
 import ast
 import itertools
 import json
+import re
 import time
 import typing
 from pathlib import Path
@@ -443,6 +444,21 @@ def campaign_functions(ck: Check, n: int) -> None:
         twice = real_resolve([root, once])[1]
         if twice != once:
             ck.fail({"oracle": "resolve_idempotent"}, {"root": root, "ref": ref}, f"resolve_ref twice gives {twice!r}, once {once!r}")
+    # which strings are `$id`/anchor references: the model's reading of ID_PATTERN vs the real pattern object
+    from datamodel_code_generator import reference as _reference
+
+    irng = Rng(rng.s, "id-refs")  # a stream of its own: the draws of the campaigns below stay what they were
+    id_cases = list(dict.fromkeys(
+        ["#" + a for a in anchor_scope_names()] + [a for a in anchor_scope_names()[:40]]
+        + ["", "#", "#/", "#//", "#/a", "#/definitions/Pet", "a.json#b", "a#", "/#a", " #a", "\n#a", "#\n", "#a\n", "#\n/", "##/", "#a/", "# /"]
+        + ["#" + gen_name(irng, not irng.chance(1, 6)) for _ in range(n)]
+    ))
+    simple_campaign(
+        ck, "isIdRef vs reference.ID_PATTERN.match (which references go to the $id registry)", id_cases,
+        lambda r: f"res.isidref {hx(r)}", lambda r: ("ok", "1" if _reference.ID_PATTERN.match(r) else "0"),
+        nontrivial=lambda r, res: r.startswith("#") and len(r) > 1,
+        classify=lambda r, res: ("id-ref" if res == ("ok", "1") else "not-id-ref") + ":" + (anchor_shape(r[1:]) if r.startswith("#") and len(r) > 1 and r[1] != "/" else "pointer-or-other"),
+    )
     stems = [rng.choice(["", ".", "..", "a", "a.b", ".a", "a.", "a.b.c", "..a", "a..", "Pet.json", "x.y.yaml", "#", "é.ü"]) for _ in range(60)]
     simple_campaign(
         ck, "stem vs pathlib.Path(x).stem (x without '/')", stems,
@@ -550,13 +566,154 @@ def cont_of(case: dict, j: int) -> str:
     return (case.get("containers") or [case["container"]] * len(case["keys"]))[j]
 
 
+# ------------------------------------------------------------------ the family of anchor names
+# A definition that is the target of an 'anchor' edge (or of a root reference listed in `root_anchors`)
+# declares `"$id": "#<name>"` and is referenced as `"$ref": "#<name>"` — the IDENTICAL string.  `<name>` is a
+# parameter of the case (`case["anchors"][j]`; absent / null = the historical `anc{j}`).  The family: every
+# non-empty string that does not start with "/" ("#" alone is the document root and "#/…" is a JSON pointer:
+# those are not anchors, the property's `$id`/anchor clause does not speak about them) and does not end in "#/"
+# (see below), the names emitted into one
+# file pairwise different (two subschemas declaring the same `$id` make the reference ambiguous).  Inside the
+# family sit the plain names of the JSON-Schema drafts (`^[A-Za-z][-A-Za-z0-9.:_]*$`, class `spec`) and the near
+# misses that the generator accepts as well and resolves by string identity (its rule is "`#` followed by
+# anything but `/`"): digit-/underscore-/hyphen-initial, non-ASCII letters, blanks and percent signs, further
+# `#`, a later `/`, other punctuation.  Every class was run on the unchanged tree before it was admitted.
+# One more exclusion, found by the systematic scope: a name that ends in `#/` — `JsonSchemaObject.validate_ref`
+# reads a `$ref` that ends in `#/` as the root pointer `…#` and drops the `/`, so the reference `##/` is not the
+# string `##/` any more when it is looked up (KeyError '##'); `#` cannot occur inside a URI fragment at all, and
+# the property does not promise anything for a reference whose spelling the `$ref` reader normalises away.
+PLAIN_NAME = r"[A-Za-z][-A-Za-z0-9.:_]*"
+
+
+def in_anchor_family(name) -> bool:
+    return isinstance(name, str) and name != "" and name[0] != "/" and not name.endswith("#/")
+
+
+ANCHOR_POOLS: dict[str, list[str]] = {
+    "letters": ["address", "Foo", "anchor", "Anchor", "ANCHOR", "item", "a", "Z", "thing", "Thing"],
+    "hyphen": ["street-address", "order-line", "a-b", "x-", "a--b", "Pets-item"],
+    "dot": ["a.b", "v1.2", "a.", "x.y.z", "a.json"],
+    "colon-underscore-digit": ["ns:item", "a_b", "a1", "item2", "a:", "A_1.b:c-d", "urn:x"],
+    "digit-initial": ["1a", "007", "1", "2-b"],
+    "underscore-initial": ["_a", "__", "_", "_1"],
+    "hyphen-dot-colon-initial": ["-a", "-", ".", "..", ".a", ":a"],
+    "non-ascii": ["\u00e9", "adr\u00ebsse", "\u65e5\u672c", "\uff21", "a\u00e9", "\u00dcn\u00ef", "pet\u2070"],
+    "blank-percent": ["a b", "a%20b", "%", " a", "a ", "a\tb", "%41"],
+    "hash": ["#", "#a", "a#", "a#b", "##"],
+    "later-slash": ["a/b", "definitions/Pet", "a/", "$defs/x"],
+    "punct": ["a?b", "a&b=c", "$a", "a~1b", "!", "a+b", "a@b", "(a)", "a,b", "a;b", "a'b", 'a"b', "a\\b", "{a}", "[a]", "*", "a|b", "<a>", "a=b"],
+    "newline": ["a\nb"],
+    "long": ["a" * 70, "street-address-" * 6 + "x"],
+}
+
+
+def anchor_shape(name: str | None) -> str:
+    """the class of an anchor name (input distribution, failure classification)"""
+    if name is None or re.fullmatch(r"anc\d+", name):
+        return "default"
+    if re.fullmatch(PLAIN_NAME, name):
+        if "-" in name:
+            return "spec:hyphen"
+        if "." in name or ":" in name:
+            return "spec:dot-colon"
+        return "spec:word" if len(name) > 1 else "spec:one-letter"
+    if not name.isascii():
+        return "near:non-ascii"
+    c = name[0]
+    if c.isdigit():
+        return "near:digit-initial"
+    if c == "_":
+        return "near:underscore-initial"
+    if c in "-.:":
+        return "near:hyphen-dot-colon-initial"
+    if "#" in name:
+        return "near:hash"
+    if "/" in name:
+        return "near:later-slash"
+    if any(ch in name for ch in " %\t\n"):
+        return "near:blank-percent"
+    return "near:punct"
+
+
+def anchor_of(case: dict, j: int) -> str:
+    a = (case.get("anchors") or [None] * len(case["keys"]))[j]
+    return f"anc{j}" if a is None else a
+
+
+def anchored_defs(case: dict) -> list[int]:
+    """definitions that declare an `$id` in the document built from `case`"""
+    files = case.get("files") or [0] * len(case["keys"])
+    out = {j for i, j, k in case["edges"] if k == "anchor" and files[i] == files[j]}
+    out |= {i for i in case.get("root_anchors") or [] if files[i] == 0}
+    return sorted(out)
+
+
+def check_anchor_family(case: dict) -> None:
+    """raise ValueError for a case outside the family described above"""
+    files = case.get("files") or [0] * len(case["keys"])
+    seen: set = set()
+    for j in anchored_defs(case):
+        a = anchor_of(case, j)
+        if not in_anchor_family(a):
+            raise ValueError(f"anchor name {a!r} of definition {j} is outside the family: '#' is the document root, '#/...' a JSON pointer, "
+                             "and a reference ending in '#/' is rewritten by the $ref reader")
+        if (files[j], a) in seen:
+            raise ValueError(f"anchor name {a!r} declared twice in one file: the reference is ambiguous")
+        seen.add((files[j], a))
+    for _, j, k in case["edges"]:
+        if k == "deepanchor" and (files[j], f"ancsub{j}") in seen:
+            raise ValueError(f"anchor name 'ancsub{j}' is taken by the nested object of definition {j}")
+    if any(i not in case["root_refs"] for i in case.get("root_anchors") or []):
+        raise ValueError("root_anchors must be a subset of root_refs")
+
+
+def gen_anchor_names(rng: Rng, keys: list[str]) -> list[str]:
+    """one anchor name per definition, pairwise different: pools by class, names equal to a definition key /
+    to the class-name form of a key, case variants of one another, random compositions of class units"""
+    out: list[str] = []
+    for j in range(len(keys)):
+        for _ in range(20):
+            k = rng.below(20)
+            if k < 12:
+                name = rng.choice(ANCHOR_POOLS[rng.choice(list(ANCHOR_POOLS))])
+            elif k < 14:  # equal to a definition key of the document (its own or another one's), or a colliding spelling
+                name = rng.choice(keys + E2E_KEYS[:12])
+            elif k < 16 and out:  # differs from an earlier anchor only in case / by one character
+                prev = rng.choice(out)
+                name = rng.choice([prev.swapcase(), prev.upper(), prev.lower(), prev + rng.choice("-._:1x"), prev[:-1] or prev + prev])
+            elif k < 17:
+                name = f"anc{rng.below(len(keys))}"  # the historical name, possibly of ANOTHER definition
+            else:
+                units = ["a", "b", "Z", "pet", "Pet", "1", "9", "_", "-", ".", ":", "\u00e9", " ", "%", "#", "/", "~", "$", "?"]
+                name = "".join(rng.choice(units) for _ in range(rng.range(1, 5)))
+            if in_anchor_family(name) and name not in out:
+                break
+        else:
+            name = f"anchor-{j}"
+        out.append(name)
+    return out
+
+
+ANCHOR_ALPHABET = ["a", "Z", "7", "_", "-", ".", ":", "\u00e9", " ", "%", "#", "/", "~"]
+
+
+def anchor_scope_names() -> list[str]:
+    """the systematic small scope of the anchor-name family: every member of every class pool, then ALL names of
+    length <= 2 over one representative per character class (lower/upper letter, digit, `_ - . :`, non-ASCII letter,
+    blank, `%`, `#`, `/`, `~`) that are inside the family (not starting with `/`)"""
+    out = [a for pool in ANCHOR_POOLS.values() for a in pool]
+    out += list(ANCHOR_ALPHABET)
+    out += [a + b for a in ANCHOR_ALPHABET for b in ANCHOR_ALPHABET]
+    return [a for a in dict.fromkeys(out) if in_anchor_family(a)]
+
+
 def ref_to(case: dict, i_from: int | None, j: int, kind: str = "ref") -> str:
     """JSON reference from definition i_from (None = root object of main.json) to definition j"""
     files = case.get("files") or [0] * len(case["keys"])
     f_from = 0 if i_from is None else files[i_from]
     same_file = files[j] == f_from
     if kind == "anchor" and same_file:
-        return f"#anc{j}"
+        return "#" + anchor_of(case, j)
     file_part = "" if same_file else ("other.json" if files[j] == 1 else "main.json")
     return f"{file_part}#/{cont_of(case, j)}/{case['keys'][j]}" + (f"/properties/sub{j}" if kind == "deep" else "")
 
@@ -587,13 +744,17 @@ def chain_info(case: dict) -> tuple[set, set]:
 
 
 def build_e2e_doc(case: dict) -> tuple[typing.Any, str]:
-    """case = {container, keys (document order), edges [[i, j, 'ref'|'array'|'deep'|'anchor']], root_refs [i…],
+    """case = {container, keys (document order), edges [[i, j, 'ref'|'array'|'deep'|'anchor'|'chain'|'deepanchor']], root_refs [i…],
     files (optional: 0 = main.json, 1 = other.json per definition),
-    containers (optional: container per definition, for documents that have `definitions` AND `$defs`)}.
+    containers (optional: container per definition, for documents that have `definitions` AND `$defs`),
+    anchors (optional: anchor name per definition, null = `anc{j}`; see "the family of anchor names"),
+    root_anchors (optional: those of root_refs that the root object writes as `$ref: "#<anchor>"`)}.
     Every definition i carries the marker member `mk{i}x`; the root object carries `mkrootx`; a definition
     that is the target of a 'deep' edge has a nested object `sub{j}` with marker `mkd{j}x`; the target of an
-    'anchor' edge has `$id: "#anc{j}"`.
+    'anchor' edge (same file) or of a root anchor reference has `$id: "#<anchor name>"`; the target of a
+    'deepanchor' edge has the nested object `sub{j}` with `$id: "#ancsub{j}"`, referenced as `#ancsub{j}` (member `n{i}to{j}`).
     Returns (document or {file name: document}, input file type)."""
+    check_anchor_family(case)
     keys = case["keys"]
     files = case.get("files") or [0] * len(keys)
     defs: list[dict] = [{}, {}]  # per file: container -> key -> schema
@@ -612,6 +773,13 @@ def build_e2e_doc(case: dict) -> tuple[typing.Any, str]:
         elif kind == "deep":
             schema(j)["properties"].setdefault(f"sub{j}", {"type": "object", "properties": {f"mkd{j}x": {"type": "integer"}}})
             props[f"d{i}to{j}"] = {"$ref": ref_to(case, i, j, "deep")}
+        elif kind == "deepanchor":
+            # the nested object `sub{j}` of definition j declares an `$id` of its own and is referenced through it
+            if files[i] != files[j]:
+                raise ValueError("a 'deepanchor' edge is same-file only")
+            sub = schema(j)["properties"].setdefault(f"sub{j}", {"type": "object", "properties": {f"mkd{j}x": {"type": "integer"}}})
+            sub["$id"] = f"#ancsub{j}"
+            props[f"n{i}to{j}"] = {"$ref": f"#ancsub{j}"}
         elif kind == "chain":
             # objects outside every definitions container (`#/extras/s{k}`), reachable only through
             # references: s{i} points at s{j}, so s{j} is discovered while the reserved-reference
@@ -622,14 +790,15 @@ def build_e2e_doc(case: dict) -> tuple[typing.Any, str]:
                     schema(k)["properties"][f"e{k}"] = {"$ref": f"#/extras/s{k}"}
             extras[f"s{i}"]["properties"][f"c{i}to{j}"] = {"$ref": f"#/extras/s{j}"}
         else:
-            if kind == "anchor" and files[i] == files[j]:
-                schema(j)["$id"] = f"#anc{j}"
             props[f"r{i}to{j}"] = {"$ref": ref_to(case, i, j, kind)}
+    for j in anchored_defs(case):
+        schema(j)["$id"] = "#" + anchor_of(case, j)
     if case["container"] == "components/schemas":
         return {"openapi": "3.0.0", "info": {"title": "t", "version": "1"}, "paths": {}, "components": {"schemas": defs[0].get("components/schemas", {})}}, "openapi"
     props = {"mkrootx": {"type": "integer"}}
+    root_anchors = case.get("root_anchors") or []
     for i in case["root_refs"]:
-        props[f"rRto{i}"] = {"$ref": ref_to(case, None, i)}
+        props[f"rRto{i}"] = {"$ref": ref_to(case, None, i, "anchor" if i in root_anchors else "ref")}
     main = {"title": "RootDoc", "type": "object", "properties": props, **defs[0]}
     if extras:
         main["extras"] = extras
@@ -752,6 +921,15 @@ def e2e_oracle(ck: Check, camp, case: dict) -> bool:
     two = len(set(case.get("containers") or [])) > 1
     if two:
         camp.hit("two-containers")
+    shapes = sorted({anchor_shape((case.get("anchors") or [None] * n)[j]) for j in anchored_defs(case)})
+    for sh in shapes:
+        camp.hit("anchor:" + sh)
+    if case.get("root_anchors"):
+        camp.hit("anchor:from-root")
+    if shapes and two:
+        camp.hit("anchor:two-containers")
+    if shapes and multi:
+        camp.hit("anchor:in-cross-file-case")
     base = {
         "oracle": "e2e",
         "shape": "two_containers" if two else ("cross_file" if multi else "single"),
@@ -759,10 +937,12 @@ def e2e_oracle(ck: Check, camp, case: dict) -> bool:
         "kind": model,
         "key_classes": sorted({key_class(k) for k in keys}),
     }
+    if shapes:
+        base["anchor_shapes"] = shapes
 
-    def fail(mech: str, observed: str) -> bool:
+    def fail(mech: str, observed: str, **extra) -> bool:
         camp.hit("fail:" + mech)
-        ck.fail({**base, "mechanism": mech}, case, observed)
+        ck.fail({**base, "mechanism": mech, **extra}, case, observed)
         return False
 
     if res.hang:
@@ -786,13 +966,13 @@ def e2e_oracle(ck: Check, camp, case: dict) -> bool:
     expected = n + (1 if ift == "jsonschema" else 0)
     if len(set(owner.values())) != n:
         return fail("merged_or_duplicated", f"two definitions share a class: {owner}")
-    subs = {j for _, j, kind in case["edges"] if kind == "deep"}
+    subs = {j for _, j, kind in case["edges"] if kind in ("deep", "deepanchor")}
     extras = {k for i, j, kind in case["edges"] if kind == "chain" for k in (i, j)}
     # a nested object referenced by pointer may be emitted twice (inline + by reference): not a named schema
     if not expected + len(subs) + len(extras) <= len(table) <= expected + 2 * len(subs) + len(extras):
         return fail("extra_class", f"{len(table)} top-level classes for {n} definitions (+{len(subs)} nested, +{len(extras)} outside the container): {names}")
     members = dict(table)
-    checks = [(owner[i], (f"a{i}to{j}" if kind == "array" else f"r{i}to{j}"), j) for i, j, kind in case["edges"] if kind not in ("deep", "chain")]
+    checks = [(owner[i], (f"a{i}to{j}" if kind == "array" else f"r{i}to{j}"), j) for i, j, kind in case["edges"] if kind not in ("deep", "chain", "deepanchor")]
     checks = list(dict.fromkeys(checks))
     for i, j, kind in case["edges"]:
         if kind == "deep":
@@ -844,6 +1024,16 @@ def e2e_oracle(ck: Check, camp, case: dict) -> bool:
                     return fail("ref_mislanded", f"{cls}.{member} resolves to {got}, expected class {owner[j]} of definition {keys[j]!r}")
         finally:
             e2e.unload(mod)
+    # LAST (any other failure of the document is reported first): a reference to the `$id` of a NESTED subschema
+    # must name the class of that nested object
+    for i, j, kind in case["edges"]:
+        if kind == "deepanchor":
+            ann = members[owner[i]].get(f"n{i}to{j}")
+            leaves = [x for x in (ann_leaves(ann) if ann is not None else []) if x != "None" and x not in WRAPPERS]
+            if len(leaves) != 1 or f"mkd{j}x" not in members.get(leaves[0], {}):
+                return fail("ref_mislanded", f"{owner[i]}.n{i}to{j}: {ast.unparse(ann) if ann is not None else None} should name the class of the nested object "
+                            f"#/{cont_of(case, j)}/{keys[j]}/properties/sub{j} (member mkd{j}x), which declares $id '#ancsub{j}'",
+                            anchor_target="nested_subschema", lands_on="enclosing_definition" if leaves == [owner[j]] else "other")
     camp.distinct.add(json.dumps(case, sort_keys=True))
     if len(camp.samples) < 2:
         camp.samples.append(case)
@@ -851,6 +1041,54 @@ def e2e_oracle(ck: Check, camp, case: dict) -> bool:
 
 
 def gen_e2e_case(rng: Rng) -> dict:
+    # the anchor names come from a stream of their own (derived from the state of `rng`, which is not advanced)
+    arng = Rng(rng.s, "anchor-names")
+    case = _gen_e2e_case(rng)
+    n = len(case["keys"])
+    files = case.get("files") or [0] * n
+    if case["container"] != "components/schemas":
+        if arng.chance(1, 3):
+            # the root object references some definitions through their anchors (main.json only)
+            case["root_anchors"] = [i for i in case["root_refs"] if files[i] == 0 and arng.chance(1, 2)]
+        same_file_refs = [e for e in case["edges"] if e[2] == "ref" and files[e[0]] == files[e[1]]]
+        if not anchored_defs(case) and same_file_refs and arng.chance(1, 4):
+            arng.choice(same_file_refs)[2] = "anchor"
+        if "files" not in case and arng.chance(1, 12):
+            # `$id` on a nested subschema (known finding C06-K4 on the unchanged tree; checked last by the oracle)
+            case["edges"].append([arng.below(n), arng.below(n), "deepanchor"])
+        if anchored_defs(case) and arng.chance(5, 6):
+            names = gen_anchor_names(arng, case["keys"])
+            case["anchors"] = [names[j] if j in anchored_defs(case) else None for j in range(n)]
+    return case
+
+
+def gen_anchor_focus_case(rng: Rng, cls: str) -> dict:
+    """a random JSON-Schema case in which at least one definition is referenced through an anchor whose name is a
+    member of class `cls` of ANCHOR_POOLS (stratification: every class is met in every run, whatever the seed)"""
+    while True:
+        case = _gen_e2e_case(rng)
+        if case["container"] != "components/schemas":
+            break
+    n = len(case["keys"])
+    files = case.get("files") or [0] * n
+    cand = [e for e in case["edges"] if e[2] == "ref" and files[e[0]] == files[e[1]]]
+    if cand:
+        rng.choice(cand)[2] = "anchor"
+    main_defs = [i for i in case["root_refs"] if files[i] == 0]
+    if main_defs and (not cand or rng.chance(1, 2)):
+        case["root_anchors"] = rng.sample(main_defs, rng.range(1, min(2, len(main_defs))))
+    if not anchored_defs(case):
+        case["edges"].append([0, 0, "anchor"])
+    anchored = anchored_defs(case)
+    names = gen_anchor_names(rng, case["keys"])
+    j, pick = rng.choice(anchored), rng.choice(ANCHOR_POOLS[cls])
+    names = [f"other-{k}" if a == pick else a for k, a in enumerate(names)]
+    names[j] = pick
+    case["anchors"] = [names[k] if k in anchored else None for k in range(n)]
+    return case
+
+
+def _gen_e2e_case(rng: Rng) -> dict:
     n = rng.range(2, 5)
     pool = E2E_KEYS if rng.chance(1, 2) else CORE_KEYS
     keys = rng.sample(pool, n)
@@ -906,6 +1144,17 @@ E2E_CORPUS = [
     # the same key in both containers: two named schemas, two classes, every reference lands on the one of ITS container
     {"container": "definitions", "keys": ["Pet", "Pet"], "edges": [[0, 1, "ref"], [1, 0, "array"]], "root_refs": [1], "containers": ["definitions", "$defs"]},
     {"container": "definitions", "keys": ["Pet", "Pet", "pet"], "edges": [[2, 0, "ref"], [2, 1, "anchor"]], "root_refs": [], "containers": ["$defs", "definitions", "$defs"]},
+    # the anchor NAME is a parameter (absent / null = anc{j}): hyphenated plain name, also referenced from the root object
+    {"container": "definitions", "keys": ["Pet", "Dog"], "edges": [[0, 1, "anchor"], [1, 1, "anchor"]], "root_refs": [1], "root_anchors": [1], "anchors": [None, "street-address"]},
+    # names that differ only in case; every definition referenced from the root through its anchor or its pointer
+    {"container": "$defs", "keys": ["Pet", "Dog", "pet"], "edges": [[0, 1, "anchor"], [1, 2, "anchor"], [2, 0, "anchor"]], "root_refs": [0, 1, 2], "root_anchors": [0, 2], "anchors": ["Anchor", "anchor", "ANCHOR"]},
+    # the anchor of a definition is the KEY of the other one, declared in the other container
+    {"container": "definitions", "keys": ["Pet", "Dog"], "edges": [[0, 1, "anchor"], [1, 0, "anchor"]], "root_refs": [], "anchors": ["Dog", "Pet"], "containers": ["definitions", "$defs"]},
+    # near misses the generator resolves by string identity: digit-initial, `_`-initial, dotted with `:`, non-ASCII, blank, further `#`
+    {"container": "definitions", "keys": ["Pet", "Dog", "Pets-item"], "edges": [[0, 1, "anchor"], [1, 2, "anchor"], [2, 0, "anchor"]], "root_refs": [0], "root_anchors": [0], "anchors": ["1a", "_b", "ns:v1.2"]},
+    {"container": "$defs", "keys": ["Pet", "Dog", "pet"], "edges": [[0, 1, "anchor"], [1, 2, "anchor"], [2, 0, "anchor"]], "root_refs": [], "anchors": ["\u00e9", "a b", "#"], "model": "typing.TypedDict"},
+    # cross-file: the SAME anchor name declared in main.json and in other.json (anchor edges are same-file)
+    {"container": "definitions", "keys": ["Pet", "Dog", "Cat"], "edges": [[0, 0, "anchor"], [1, 2, "anchor"], [2, 1, "anchor"]], "root_refs": [0, 1, 2], "root_anchors": [0], "files": [0, 1, 1], "anchors": ["x-1", "x-1", "_y"]},
 ]
 
 
@@ -923,16 +1172,20 @@ def campaign_e2e(ck: Check, n: int, label: str = "", extra: list | None = None) 
     rng = ck.rng.fork("e2e" + label)
     for case in E2E_CORPUS + list(extra or []):
         e2e_oracle(ck, camp, case)
-    for _ in range(n):
-        case = gen_e2e_case(rng)
+    frng = Rng(rng.s, "anchor-focus")  # a stream of its own: the random cases below stay what they were
+    generated = [gen_anchor_focus_case(frng, cls) for cls in ANCHOR_POOLS for _ in range(1 if n <= 150 else 4)] if n else []
+    for k in range(n + len(generated)):
+        case = generated[k - n] if k >= n else gen_e2e_case(rng)
         # the same definitions in a second, permuted document order (edges keep pointing at the same keys)
         e2e_oracle(ck, camp, case)
         perm = rng.shuffle(list(range(len(case["keys"]))))
         inv = {old: new for new, old in enumerate(perm)}
         permuted = dict(case, keys=[case["keys"][i] for i in perm], edges=[[inv[i], inv[j], k] for i, j, k in case["edges"]], root_refs=[inv[i] for i in case["root_refs"]])
-        for per_def in ("files", "containers"):
+        for per_def in ("files", "containers", "anchors"):
             if per_def in case:
                 permuted[per_def] = [case[per_def][i] for i in perm]
+        if "root_anchors" in case:
+            permuted["root_anchors"] = [inv[i] for i in case["root_anchors"]]
         e2e_oracle(ck, camp, permuted)
     camp.wall_s = time.time() - t0
 
@@ -1000,12 +1253,12 @@ def campaign_worklist(ck: Check, n: int) -> None:
     camp = ck.campaign("worklist model (prelude + loop, fuel |pointers|+1) vs JsonSchemaParser.parse_raw: reserved set and loaded pointers")
     t0 = time.time()
     rng = ck.rng.fork("worklist")
-    cases = [c for c in E2E_CORPUS if "files" not in c and c["container"] != "components/schemas" and all(k != "deep" for _, _, k in c["edges"])]
+    cases = [c for c in E2E_CORPUS if "files" not in c and c["container"] != "components/schemas" and all(k not in ("deep", "deepanchor") for _, _, k in c["edges"])]
     while len(cases) < n:
         c = gen_e2e_case(rng)
         if "files" in c or c["container"] == "components/schemas":
             continue
-        c["edges"] = [[i, j, "chain" if k == "deep" else k] for i, j, k in c["edges"]]
+        c["edges"] = [[i, j, "chain" if k in ("deep", "deepanchor") else k] for i, j, k in c["edges"]]
         cases.append(c)
     reqs = []
     for c in cases:
@@ -1417,16 +1670,120 @@ def names_of_sequences(cases: list[dict]) -> list[str]:
     return out
 
 
+def strings_of(x) -> list[str]:
+    """every string inside a JSON-able value"""
+    if isinstance(x, str):
+        return [x]
+    if isinstance(x, dict):
+        return [s for v in x.values() for s in strings_of(v)]
+    if isinstance(x, (list, tuple)):
+        return [s for v in x for s in strings_of(v)]
+    return []
+
+
+def anchor_names_of_disagreements(inputs: list) -> list[str]:
+    """anchor names suggested by the inputs of the disagreements (of ANY campaign): every string in them that has
+    the shape of an anchor reference — `#` followed by something that does not start with `/` (`##`, `#pet`,
+    `#foo`, also the part after the `#` of `file#name`) — gives the name after the `#`. Names inside the family only."""
+    out: list[str] = []
+    for inp in inputs:
+        for s in strings_of(inp):
+            cands = []
+            if s.startswith("#"):
+                cands.append(s[1:])
+            elif "#" in s:
+                cands.append(s.split("#", 1)[1])
+            for a in cands:
+                if in_anchor_family(a) and len(a) <= 80 and a not in out:
+                    out.append(a)
+    return out
+
+
+def id_pattern_changed_on(names: list[str]) -> list[str]:
+    """model-side refuter of `id_pattern_is_reviewed`: the names on which the reviewed rule (`#` + anything but `/`:
+    every name of the family is an id reference) and the pattern object of the code as it is now disagree"""
+    try:
+        from datamodel_code_generator import reference
+
+        return [a for a in names if not reference.ID_PATTERN.match("#" + a)]
+    except Exception:  # noqa: BLE001
+        return []
+
+
+def anchor_scope_cases(name: str) -> list[dict]:
+    """complete documents around ONE anchor name: the definition that declares it is referenced through it by the
+    other definition, by itself and by the root object; declared before / after its first use; `definitions`, `$defs`
+    and a document with both containers (the anchor in the second one)"""
+    other = "other" if re.fullmatch(r"anc\d+", name) else None  # the second anchor keeps the historical name
+    return [
+        {"container": "definitions", "keys": ["Pet", "Dog"], "edges": [[1, 0, "anchor"]], "root_refs": [0], "root_anchors": [0], "anchors": [name, None]},
+        {"container": "$defs", "keys": ["Dog", "Pet"], "edges": [[0, 1, "anchor"], [1, 1, "anchor"], [1, 0, "anchor"]], "root_refs": [], "anchors": [other, name]},
+        {"container": "definitions", "keys": ["Pet", "Dog"], "edges": [[0, 1, "anchor"]], "root_refs": [0, 1], "root_anchors": [1], "anchors": [None, name], "containers": ["definitions", "$defs"]},
+    ]
+
+
+def campaign_e2e_anchor_scope(ck: Check, derived: list[str], label: str, budget_s: float = 45.0, sample: int | None = None) -> None:
+    """failing-input search over the anchor-name family: the names derived from the disagreements, one-character
+    variations of them, and the systematic small scope `anchor_scope_names()`; the names on which the pattern object
+    of the code no longer agrees with the reviewed rule are tried first. Stops at the first name that gives a
+    failure (after trying to shorten it) or when the time budget is used up."""
+    camp = ck.campaign("e2e anchor-name scope: names derived from the disagreements + all class pools + all names of length <= 2 over 13 class representatives" + label)
+    t0 = time.time()
+    names = list(derived)
+    for d in derived[:12]:
+        names += [d + x for x in ANCHOR_ALPHABET] + [x + d for x in ANCHOR_ALPHABET]
+    scope = anchor_scope_names()
+    names += scope if sample is None else ck.rng.fork("anchor-scope" + label).sample(scope, sample)
+    names = [a for a in dict.fromkeys(names) if in_anchor_family(a)]
+    first = sorted(id_pattern_changed_on(names), key=lambda a: not anchor_shape(a).startswith("spec"))  # stable: plain names of the drafts first
+    camp.hit(f"names-the-pattern-object-rejects:{min(len(first), 9)}{'+' if len(first) > 9 else ''}")
+    names = list(dict.fromkeys(first + names))
+
+    def fails(name: str) -> bool:
+        k = len(ck.failures)
+        for case in anchor_scope_cases(name):
+            if not e2e_oracle(ck, camp, case) and len(ck.failures) > k:
+                return True
+        return False
+
+    for name in names:
+        if time.time() - t0 > budget_s:
+            camp.hit("stopped:time-budget")
+            break
+        if fails(name):
+            # shrink: drop characters while some document around the shorter name still fails
+            best = name
+            progress = True
+            while progress and len(best) > 1 and time.time() - t0 < budget_s:
+                progress = False
+                for i in range(len(best)):
+                    shorter = best[:i] + best[i + 1:]
+                    # a plain name of the drafts stays one: the replay should show the strongest witness
+                    same = anchor_shape(shorter).split(":")[0] == anchor_shape(best).split(":")[0]
+                    if in_anchor_family(shorter) and same and fails(shorter):
+                        best, progress = shorter, True
+                        break
+            # the failure of the shortest name goes first (it becomes the replay)
+            ck.failures.insert(0, ck.failures.pop())
+            camp.hit("found:" + anchor_shape(best))
+            break
+    camp.wall_s = time.time() - t0
+
+
 def search_embed_disagreements(ck: Check) -> None:
-    """DESIGN §2.5: the names of every disagreeing operation sequence become definition keys of
-    complete documents (all orders, three containers, forward/mutual/self references); then a wider
-    seeded e2e campaign; then the exhaustive small scope."""
+    """DESIGN §2.5: (1) anchor-shaped strings of the disagreeing inputs and the systematic scope of the anchor-name
+    family, embedded as `$id` / `$ref` pairs into complete documents; (2) the names of every disagreeing
+    operation sequence become definition keys of complete documents (all orders, three containers,
+    forward/mutual/self references); then a wider seeded e2e campaign; then the exhaustive small scope."""
+    campaign_e2e_anchor_scope(ck, anchor_names_of_disagreements([d.input for d in ck.disagreements]), " [search]")
+    if ck.failures:
+        return
     seqs = [d.input for d in ck.disagreements if isinstance(d.input, dict) and "ops" in d.input]
     mods = [d.input for d in ck.disagreements if isinstance(d.input, dict) and "models" in d.input]
     keys = names_of_sequences(seqs)
     for m in mods:
         keys += [x for x in m["imports"] + [c for _, c, _ in m["models"]] if x not in keys and x.isascii()]
-    keys = keys[:7]
+    keys = list(dict.fromkeys(keys))[:7]  # a key occurs once in a container
     if len(keys) >= 2:
         campaign_e2e_exhaustive(ck, keys, min(3, len(keys)), " [search: keys of the disagreeing sequences]")
         if ck.failures:
@@ -1471,12 +1828,23 @@ def run(ck: Check) -> None:
         "local pointers, '#', plain relative file references; URLs, base_url, $id/anchors, root_id, remove_suffix_number, "
         "parent_scoped_naming are outside the model (answered `unmodelled`, counted)",
         "inflect (get_singular_name) is an oracle parameter: the answers of the real function are handed to the model",
+        "$id / anchors: the model has the TEST `isIdRef` (which references go to the id registry; the pattern text, its flags and its one use are regenerated "
+        "from reference.py and tied by `id_pattern_is_reviewed`; that `isIdRef` is the meaning of that regular expression under re.match is a reviewed reading, "
+        "compared with the real pattern object on every run) but not the registry: anchor RESOLUTION is exercised end-to-end only. End-to-end family of anchors: "
+        "`$id: \"#<name>\"` on an entry of definitions / $defs (not on nested subschemas), referenced from the same file by the identical string `#<name>` "
+        "(from another definition, from itself, from the root object); <name> any non-empty string that does not start with `/` (`#` is the root, `#/...` a JSON pointer), "
+        "does not end in `#/` (JsonSchemaObject.validate_ref rewrites a `$ref` ending in `#/` to the root pointer) and is declared once per file; "
+        "percent-encoded and literal spellings of one name are different names; OpenAPI schema objects have no `$id` (no anchors there); "
+        "`other.json#name` (an anchor of another file) is not supported by the generator and not part of the family",
         "pathlib on POSIX without symlinks below the base path",
         "theorems hold for every class-name generator; `name_is_classform` speaks of that function, the concrete default form is only tested",
         "multi-document input: files of one flat directory, references `other.json#/pointer`, `other.json`, `#/pointer`; Model/ResolverMultidoc starts from the "
         "reserved/loaded state observed at the first call of _resolve_unparsed_json_pointer (the per-document prelude is not modelled for document sets)",
         "Dcg/Model/ResolverDedupe restates the name/key logic of Parser.__delete_duplicate_models; the key (render(class_name=duplicate_class_name), imports) is a parameter "
         "whose value the harness takes from the real objects; the root-model branch of the pass (a root-type model that only wraps a reference to a model of its own name) is outside the model",
+        "modular output of ONE document (dotted definition keys `pkg.Pet`, `pkg.sub.Pet`, `other.Pet` next to plain keys; module names pkg / pkg.sub / other only): "
+        "the written package is imported for real, so the module-level reference graph of the family is acyclic (package root -> pkg -> pkg.sub -> other; a cycle of modules is a circular import, "
+        "which C06 does not speak about); references inside a module are unrestricted; msgspec / TypedDict kinds are not in this campaign",
         "base-path contexts: directories below the resolver's _base_path as segment lists, POSIX paths without symlinks; a path that leaves _base_path is answered `outside`, "
         "a current directory outside _base_path (or None) ends the modelled region; `#…` references and URLs are outside this part of the model",
     ]
@@ -1485,6 +1853,8 @@ def run(ck: Check) -> None:
         "classForm/validName": "distinct inputs whose result differs from the input",
         "joinPath": "distinct part lists with >= 2 non-empty parts",
         "resolveRef": "distinct (root, ref) that resolve (no exception) on the real class",
+        "isIdRef": "distinct strings `#x...` of length >= 2 (anchor-shaped or pointer-shaped)",
+        "anchor-scope": "distinct documents on which the oracle passed (3 documents per anchor name)",
         "uniqueName": "distinct cases in which a suffix had to be appended",
         "modpass": "distinct cases in which the pass renamed at least one class",
         "worklist": "distinct documents whose parse reserved at least one pointer",
@@ -1492,6 +1862,7 @@ def run(ck: Check) -> None:
         "collide": "distinct documents (keys in order, content per key, container, kind) on which the oracle passed",
         "dedupe-pass": "distinct model sequences in which the real pass dropped at least one model",
         "dirs": "distinct directory trees (files, edges, entry, kind) on which the oracle passed",
+        "dotted": "distinct documents with dotted keys (keys in order, edges, container, kind) on which the oracle passed",
         "basepath": "distinct operation sequences in which one reference string got different answers in different directories",
         "e2e": "distinct documents (keys in order, edges, container, kind) on which the oracle passed; failures matching a known finding are counted in known_finding_hits_in_campaigns",
     }
@@ -1505,6 +1876,10 @@ def run(ck: Check) -> None:
     campaign_multidoc(ck, 200 if quick else 1500, exhaustive=not quick)
     c06_dirs.campaign_dirs(ck, 120 if quick else 1500)
     c06_dirs.campaign_basepath(ck, 300 if quick else 3000)
+    c06_dirs.campaign_dotted(ck, 60 if quick else 900, scope=not quick)
+    # the systematic scope of the anchor-name family that the failing-input search enumerates is itself part of
+    # the regular run (all of it in the thorough tier, a seeded sample of the names in the quick tier)
+    campaign_e2e_anchor_scope(ck, [], "", budget_s=20.0 if quick else 120.0, sample=60 if quick else None)
     if not quick:
         campaign_e2e_exhaustive(ck, CORE_KEYS, 4, "")
     ck.search_hooks.append(search_embed_disagreements)
@@ -1523,6 +1898,14 @@ def replay(ck: Check, path: str) -> int:
         if not ck.failures and not ck.disagreements:
             print("replay: model and implementation agree and the oracle does not fail on this input")
         return 1 if ck.failures or ck.disagreements else 0
+    if inp.get("dotted"):
+        camp = ck.campaign("replay")
+        c06_dirs.dotted_oracle(ck, camp, inp)
+        for f in ck.failures:
+            print("REPLAY-FAILS:", json.dumps(f.classification), f.observed[:300])
+        if not ck.failures:
+            print("replay: the oracle does not fail on this input" + (" (matches a known finding)" if ck.known_hits else ""))
+        return 1 if ck.failures else 0
     if inp.get("dirs"):
         camp = ck.campaign("replay")
         c06_dirs.dirs_oracle(ck, camp, inp)
